@@ -20,6 +20,7 @@
    feasible point whose objective is AT MOST its cost; statements 1, 2, 4, 5 are as for SOP.
    Statements only; proofs are in Proofs/MipBase.v, MipCore.v, MipSop.v, MipEsop.v, MipGen.v, MipSopes.v. *)
 From Coq Require Import List NArith ZArith QArith Arith Bool Lia Lqa.
+From V Require Import Checkers.Check Proofs.CheckSoundTwoLevel.   (* the extracted checkers and their soundness proofs, pinned at the end of this file *)
 From V Require Import Base.Res Model.Kernels Model.TwoLevel Model.Api Model.Mip Spec.Bfun Spec.TwoLevelCost.
 From V Require Import Proofs.MipBase Proofs.MipSop Proofs.MipEsop Proofs.MipSopes.
 Import ListNotations.
@@ -248,3 +249,82 @@ Print Assumptions C18_sopes_decode_sound.
 Print Assumptions C18_sopes_encode.
 Print Assumptions C18_sopes_valid.
 Print Assumptions C18_sopes_optimal.
+
+
+(* ---- soundness of the extracted checkers that decide this property's statement on the implementation's results *)
+Open Scope N_scope.
+Theorem C18_checker_sop_solution_ok_iff : forall n fs sol,
+  sop_solution_ok n fs sol = true <-> Forall2 (sop_cover_ok n) fs sol.
+Proof. exact CheckSoundTwoLevel.sop_solution_ok_iff. Qed.
+
+Theorem C18_checker_esop_solution_ok_iff : forall n fs sol,
+  esop_solution_ok n fs sol = true <-> Forall2 (esop_cover_ok n) fs sol.
+Proof. exact CheckSoundTwoLevel.esop_solution_ok_iff. Qed.
+
+Theorem C18_checker_sopes_solution_ok_iff : forall n fs sol,
+  sopes_solution_ok n fs sol = true <-> Forall2 (sopes_cover_ok n) fs sol.
+Proof. exact CheckSoundTwoLevel.sopes_solution_ok_iff. Qed.
+
+Theorem C18_checker_sop_opt_iff : forall n fs ac oc ret w,
+  chk_sop_opt n fs ac oc ret w = true <->
+  sop_solution_ok n fs ret = true /\
+  match w with
+  | None => True
+  | Some w' => sop_solution_ok n fs w' = true -> (sop_cost ac oc ret <= sop_cost ac oc w')%Z
+  end.
+Proof. exact CheckSoundTwoLevel.chk_sop_opt_iff. Qed.
+
+Theorem C18_checker_esop_opt_iff : forall n fs ac xc ret w,
+  chk_esop_opt n fs ac xc ret w = true <->
+  esop_solution_ok n fs ret = true /\
+  match w with
+  | None => True
+  | Some w' => esop_solution_ok n fs w' = true -> (esop_cost ac xc ret <= esop_cost ac xc w')%Z
+  end.
+Proof. exact CheckSoundTwoLevel.chk_esop_opt_iff. Qed.
+
+Theorem C18_checker_sopes_opt_iff : forall n fs ac xc oc ret w,
+  chk_sopes_opt n fs ac xc oc ret w = true <->
+  sopes_solution_ok n fs ret = true /\
+  match w with
+  | None => True
+  | Some w' => sopes_solution_ok n fs w' = true -> (sopes_cost ac xc oc ret <= sopes_cost ac xc oc w')%Z
+  end.
+Proof. exact CheckSoundTwoLevel.chk_sopes_opt_iff. Qed.
+
+Theorem C18_checker_sop_opt_spec : forall n fs ac oc ret w,
+  chk_sop_opt n fs ac oc ret w = true <->
+  Forall2 (sop_cover_ok n) fs ret /\
+  match w with
+  | None => True
+  | Some w' => Forall2 (sop_cover_ok n) fs w' -> (sop_cost ac oc ret <= sop_cost ac oc w')%Z
+  end.
+Proof. exact CheckSoundTwoLevel.chk_sop_opt_spec. Qed.
+
+Theorem C18_checker_esop_opt_spec : forall n fs ac xc ret w,
+  chk_esop_opt n fs ac xc ret w = true <->
+  Forall2 (esop_cover_ok n) fs ret /\
+  match w with
+  | None => True
+  | Some w' => Forall2 (esop_cover_ok n) fs w' -> (esop_cost ac xc ret <= esop_cost ac xc w')%Z
+  end.
+Proof. exact CheckSoundTwoLevel.chk_esop_opt_spec. Qed.
+
+Theorem C18_checker_sopes_opt_spec : forall n fs ac xc oc ret w,
+  chk_sopes_opt n fs ac xc oc ret w = true <->
+  Forall2 (sopes_cover_ok n) fs ret /\
+  match w with
+  | None => True
+  | Some w' => Forall2 (sopes_cover_ok n) fs w' -> (sopes_cost ac xc oc ret <= sopes_cost ac xc oc w')%Z
+  end.
+Proof. exact CheckSoundTwoLevel.chk_sopes_opt_spec. Qed.
+
+Print Assumptions C18_checker_sop_solution_ok_iff.
+Print Assumptions C18_checker_esop_solution_ok_iff.
+Print Assumptions C18_checker_sopes_solution_ok_iff.
+Print Assumptions C18_checker_sop_opt_iff.
+Print Assumptions C18_checker_esop_opt_iff.
+Print Assumptions C18_checker_sopes_opt_iff.
+Print Assumptions C18_checker_sop_opt_spec.
+Print Assumptions C18_checker_esop_opt_spec.
+Print Assumptions C18_checker_sopes_opt_spec.
